@@ -46,7 +46,9 @@ def _cases(draw):
          "phi": [[0.0 if (pm == "zero" or (pm == "mixed" and draw(st.booleans()))) else draw(_real(0.2, 3.0)) for _ in range(n)] for _ in range(steps)],
          "U": [draw(st.one_of(st.just(0.0), _real(-12.0, 12.0))) for _ in range(n * (n - 1) // 2)],
          "dt": draw(st.sampled_from([5.0, 10.0, 20.0])), "loss": draw(st.sampled_from(["occupation", "overlap", "energy", "mix"])),
-         "seed": draw(st.integers(0, 2**20))}
+         "seed": draw(st.integers(0, 2**20)),
+         # the loss also involves results at an intermediate evaluation time (backend / pulser levels)
+         "mid": draw(st.booleans())}
     if level == "pulser":
         c["amp_kind"] = draw(st.sampled_from(["const", "ramp", "blackman", "const_then_ramp", "delay_then_const", "ramp_to_zero"]))
         c["det_kind"] = draw(st.sampled_from(["const", "ramp", "zero"]))
@@ -86,7 +88,11 @@ def check_case(case) -> Result:
             U0[i, j] = U0[j, i] = case["U"][k]
             k += 1
     level = case["level"]
+    # intermediate evaluation time in the loss: needs >= 2 steps at the backend level; energy losses keep their final-time form
+    mid = bool(case.get("mid")) and level in ("backend", "pulser") and case["loss"] != "energy" and (level == "pulser" or case["steps"] >= 2)
     r.label(level, f"n{n}", "phase:" + case["phase_mode"], "loss:" + case["loss"])
+    if mid:
+        r.label("loss_involves_an_intermediate_time")
 
     def occupations(psi):
         out = []
@@ -137,7 +143,8 @@ def check_case(case) -> Result:
             sd = SequenceData(omega=p["omega"].to(torch.complex128), delta=p["delta"].to(torch.complex128), phi=p["phi"].to(torch.complex128),
                               interaction_matrix=lambda t: Uten, qubit_ids=tuple(f"q{i}" for i in range(n)), bad_atoms=tuple([False] * n),
                               lindblad_ops=[], state_prep_error=0.0, target_times=tt, eigenstates=["r", "g"], hamiltonian_type=HamiltonianType.Rydberg)
-            obs = [pb.Occupation(evaluation_times=[1.0]), pb.StateResult(evaluation_times=[1.0])]
+            evs = [1.0 / steps, 1.0] if mid else [1.0]
+            obs = [pb.Occupation(evaluation_times=evs), pb.StateResult(evaluation_times=evs)]
             if case["loss"] == "energy":
                 obs.append(pb.Energy(evaluation_times=[1.0]))
             cfg = e2e.sv_config(dt=case["dt"], krylov_tolerance=ktol, observables=obs)
@@ -153,8 +160,8 @@ def check_case(case) -> Result:
             if case["loss"] == "energy":
                 return res.energy[-1].real.to(torch.float64) if torch.is_tensor(res.energy[-1]) else torch.as_tensor(res.energy[-1])
             if case["loss"] == "occupation":
-                return (wocc * occ).sum()
-            return loss_from_state(res.state[-1].data)
+                return (wocc * occ).sum() + ((wocc * res.occupation[0]).sum() if mid else 0.0)
+            return loss_from_state(res.state[-1].data) + (loss_from_state(res.state[0].data) if mid else 0.0)
     else:
         import pulser
         import pulser.backend as pb
@@ -197,11 +204,12 @@ def check_case(case) -> Result:
             from emu_sv import SVBackend
 
             seq = build_sequence(p)
-            cfg = e2e.sv_config(dt=case["dt"], krylov_tolerance=ktol, observables=[pb.Occupation(evaluation_times=[1.0]), pb.StateResult(evaluation_times=[1.0])])
+            evs = [0.5, 1.0] if mid else [1.0]
+            cfg = e2e.sv_config(dt=case["dt"], krylov_tolerance=ktol, observables=[pb.Occupation(evaluation_times=evs), pb.StateResult(evaluation_times=evs)])
             res = cut(SVBackend(seq, config=cfg).run)
             if case["loss"] in ("occupation", "energy"):
-                return (wocc * res.occupation[-1]).sum()
-            return loss_from_state(res.state[-1].data)
+                return (wocc * res.occupation[-1]).sum() + ((wocc * res.occupation[0]).sum() if mid else 0.0)
+            return loss_from_state(res.state[-1].data) + (loss_from_state(res.state[0].data) if mid else 0.0)
 
         r.label("amp:" + case["amp_kind"], "det:" + case["det_kind"])
 
@@ -232,17 +240,23 @@ def check_case(case) -> Result:
         if level in ("step", "backend"):
             psi = (p["psi_re"] + 1j * p["psi_im"]) if level == "step" else np.eye(D, dtype=complex)[0]
             H = None
+            extra_ = 0.0
             for s_ in range(case["steps"]):
                 Um = np.triu(p["U"], 1)
                 Um = Um + Um.T
                 H = _dense.hamiltonian("rydberg", p["omega"][s_], p["delta"][s_], p["phi"][s_], Um, d=2)
                 psi = _sla.expm(-1j * case["dt"] * 1e-3 * H) @ psi
-            return np_loss(psi, H)
+                if mid and s_ == 0:
+                    extra_ = np_loss(psi, H)
+            return np_loss(psi, H) + extra_
         seq_ = build_sequence({k: float(v) for k, v in p.items()})
         from pbt.props import c01 as _c01
 
-        refs_, info_ = _c01.reference({"seq": {"device": "mock", "slm": None}, "evals": [[1.0]], "dt": case["dt"], "custom": None, "cutoff": 0.0}, seq_)
-        return np_loss(refs_[0].states[len(info_["grid"]) - 1])
+        refs_, info_ = _c01.reference({"seq": {"device": "mock", "slm": None}, "evals": [[0.5, 1.0] if mid else [1.0]], "dt": case["dt"], "custom": None, "cutoff": 0.0}, seq_)
+        val_ = np_loss(refs_[0].states[len(info_["grid"]) - 1])
+        if mid:
+            val_ += np_loss(refs_[0].states[refs_[0].index_of(0.5 * info_["T"], tol=1e-6 * max(1.0, info_["T"]))])
+        return val_
 
     # ------------------------------------------------------------------ autograd
     leaves = {k: v.clone().requires_grad_(True) for k, v in params.items()}
@@ -256,7 +270,16 @@ def check_case(case) -> Result:
     if not torch.is_tensor(val) or not val.requires_grad:
         r.fail("result_not_differentiable:" + level, f"loss from the results has no grad_fn (type {type(val).__name__})")
         return r
-    grads = torch.autograd.grad(val, list(leaves.values()), allow_unused=True)
+    try:
+        grads = torch.autograd.grad(val, list(leaves.values()), allow_unused=True)
+    except RuntimeError as e:
+        # raised by the autograd engine itself (no frame of the package in the traceback), e.g. "one of the variables needed
+        # for gradient computation has been modified by an inplace operation": the gradient of this loss cannot be had
+        if "emu_" in "".join(__import__("traceback").format_tb(e.__traceback__)):
+            raise
+        r.fail(f"backward_raised:{level}" + (":intermediate_time" if mid else ""), f"{type(e).__name__}: {str(e)[:400]}; loss={case['loss']}, n={n}, steps={case['steps']}")
+        r.nontrivial = True
+        return r
     g_ad = {k: (g.detach().clone() if g is not None else None) for k, g in zip(leaves, grads)}
 
     # ------------------------------------------------------------------ finite differences on a generated subset of entries
